@@ -5,6 +5,7 @@ import (
 	"errors"
 	"fmt"
 	"io"
+	"math"
 	"net"
 	"strconv"
 	"strings"
@@ -18,6 +19,16 @@ import (
 const (
 	flushCommandBatch  = 8
 	flushBufferedBytes = 2048
+
+	// Protocol limits, same as Redis: at most 1M elements per multibulk and
+	// 512MB per bulk string (proto-max-bulk-len).
+	maxMultibulkLen = 1024 * 1024
+	maxBulkLen      = 512 * 1024 * 1024
+	// A declared length is trusted for preallocation only up to these sizes;
+	// beyond them buffers grow with the bytes that actually arrive, so a client
+	// cannot make the gateway allocate memory it never pays for in traffic.
+	multibulkPrealloc = 1024
+	bulkPrealloc      = 64 * 1024
 )
 
 var (
@@ -164,7 +175,10 @@ func (s *redisServer) execute(w *bufio.Writer, args [][]byte) error {
 	s.metrics.IncCommand(cmd)
 	switch cmd {
 	case "PING":
-		if len(args) > 1 && len(args[1]) > 0 {
+		if len(args) > 2 {
+			return s.respondError(w, "wrong number of arguments for 'PING'")
+		}
+		if len(args) == 2 {
 			return writeBulk(w, args[1])
 		}
 		return writeSimpleString(w, "PONG")
@@ -224,6 +238,10 @@ func (s *redisServer) execute(w *bufio.Writer, args [][]byte) error {
 		delta, err := strconv.ParseInt(string(args[2]), 10, 64)
 		if err != nil {
 			return s.respondError(w, errNotIntegerMsg)
+		}
+		if delta == math.MinInt64 {
+			// -delta is not representable; Redis rejects this decrement outright.
+			return s.respondError(w, errOverflowMsg)
 		}
 		return s.execIncrBy(w, args[1], -delta)
 	case "EXISTS":
@@ -290,6 +308,11 @@ func (s *redisServer) execSet(w *bufio.Writer, args [][]byte) error {
 				return s.respondError(w, "value is not an integer or out of range")
 			}
 			if num <= 0 {
+				return s.respondError(w, "invalid expire time in set")
+			}
+			if (opt == "EX" && num > math.MaxInt64/int64(time.Second)) ||
+				(opt == "PX" && num > math.MaxInt64/int64(time.Millisecond)) {
+				// time.Duration(num)*unit would wrap around.
 				return s.respondError(w, "invalid expire time in set")
 			}
 			switch opt {
@@ -430,13 +453,13 @@ func parseRESP(r *bufio.Reader) ([][]byte, error) {
 			return nil, err
 		}
 		n, err := strconv.Atoi(line)
-		if err != nil {
+		if err != nil || n > maxMultibulkLen {
 			return nil, fmt.Errorf("invalid multibulk length %q", line)
 		}
 		if n < 0 {
 			return nil, nil
 		}
-		out := make([][]byte, 0, n)
+		out := make([][]byte, 0, min(n, multibulkPrealloc))
 		for range n {
 			b, err := r.ReadByte()
 			if err != nil {
@@ -450,15 +473,15 @@ func parseRESP(r *bufio.Reader) ([][]byte, error) {
 				return nil, err
 			}
 			l, err := strconv.Atoi(line)
-			if err != nil {
+			if err != nil || l > maxBulkLen {
 				return nil, fmt.Errorf("invalid bulk length %q", line)
 			}
 			if l < 0 {
 				out = append(out, nil)
 				continue
 			}
-			buf := make([]byte, l)
-			if _, err := io.ReadFull(r, buf); err != nil {
+			buf, err := readBulk(r, l)
+			if err != nil {
 				return nil, err
 			}
 			if err := expectCRLF(r); err != nil {
@@ -484,6 +507,29 @@ func parseRESP(r *bufio.Reader) ([][]byte, error) {
 			out[i] = []byte(f)
 		}
 		return out, nil
+	}
+}
+
+// readBulk reads exactly l payload bytes. The buffer starts at no more than
+// bulkPrealloc bytes and doubles only after it has been filled, so the memory
+// held for a bulk string stays proportional to the bytes received.
+func readBulk(r *bufio.Reader, l int) ([]byte, error) {
+	buf := make([]byte, min(l, bulkPrealloc))
+	filled := 0
+	for {
+		if _, err := io.ReadFull(r, buf[filled:]); err != nil {
+			if err == io.EOF && filled > 0 {
+				err = io.ErrUnexpectedEOF
+			}
+			return nil, err
+		}
+		if len(buf) == l {
+			return buf, nil
+		}
+		filled = len(buf)
+		grown := make([]byte, min(l, 2*filled))
+		copy(grown, buf)
+		buf = grown
 	}
 }
 
